@@ -67,6 +67,10 @@ type Options struct {
 	Extra []*m.Design
 	// Generate replaces gen.Design(Profile) as the source of designs (seed -> design).
 	Generate func(seed int) *m.Design
+	// OnSkip is told about every accepted design whose generation or build
+	// failed (normally C01's subject) so that a check whose property covers a
+	// generation step (C10: the protocol buffer file) can judge the failure.
+	OnSkip func(d *m.Design, out *pipeline.Outcome)
 }
 
 // Prepare generates, builds and starts n designs (or loads the one of a
@@ -142,6 +146,9 @@ func Prepare(t *testing.T, tag string, o Options) (*pipeline.Session, []*Built) 
 			if out.Failure != "" {
 				stats.Class("design-skipped:" + out.Failure)
 				stats.Note("skipped (%s, C01's subject): %s", out.Failure, firstLine(out.Sig))
+				if o.OnSkip != nil {
+					o.OnSkip(d, out)
+				}
 				return
 			}
 			bin, diag, err := sess.BuildHarness(out.Run, o.Race)
